@@ -311,7 +311,10 @@ def do_replay(pid, cfg, path):
         log(f'replay {path}: no scenario recorded ({r.get("kind")}): re-run ./check {pid} --tier quick')
         return 2
     lines = [l.split() for l in r['scenario'].splitlines() if l.strip()]
-    wit, d, im, mo = eval_scenario(pid, cfg, lines, use_model=not any(l[0] == 'tick' for l in lines))
+    # scenarios of implementation-only families (and decimal-time ones) contain lines the model's driver does not
+    # read: they are judged by the monitors alone, as in the check that produced them
+    impl_only = r.get('family') in [f for f, _, _ in cfg.get('impl_only_families', [])]
+    wit, d, im, mo = eval_scenario(pid, cfg, lines, use_model=not impl_only and not any(l[0] == 'tick' for l in lines))
     log('scenario:')
     log(r['scenario'])
     log('monitor witnesses on the implementation trace:', json.dumps(wit, indent=1))
@@ -467,7 +470,8 @@ def main():
                 ww, _, _, _ = eval_scenario(pid, cfg, c, use_model=False)
                 return any(witness_kind(x) == witness_kind(w[0]) for x in ww)
             small = shrink(pid, cfg, s, pred)
-            ww, d, _, _ = eval_scenario(pid, cfg, small, use_model=not any(l[0] == 'tick' for l in small))
+            ww, d, _, _ = eval_scenario(pid, cfg, small, use_model=fam not in [f for f, _, _ in cfg.get('impl_only_families', [])]
+                                        and not any(l[0] == 'tick' for l in small))
             text = json.dumps(ww) + '\n' + scen.to_text(small)
             k = match_known(pid, text, known)
             if k:
